@@ -88,6 +88,7 @@ type Contract struct {
 	Trusted  bool
 	NoReturnNil []int
 	Loops    map[int]*LoopSpec
+	AnchoredLoops map[string]int // callee pattern -> (negative) key in Loops
 	Sites    []SiteSpec
 	Fresh    []string // result names that are freshly allocated
 	Props    []string // properties this contract belongs to
@@ -418,9 +419,25 @@ func (s *Specs) loadSpecFile(path string) error {
 				if len(f) < 3 {
 					return fmt.Errorf("%s: bad loop clause", where)
 				}
-				n, err := strconv.Atoi(f[0])
-				if err != nil {
-					return fmt.Errorf("%s: loop ordinal: %v", where, err)
+				var n int
+				if strings.HasPrefix(f[0], "@") {
+					// loop @callee …: the innermost loop whose body calls callee (robust against other loops being added or moved)
+					if cur.AnchoredLoops == nil {
+						cur.AnchoredLoops = map[string]int{}
+					}
+					key := strings.TrimPrefix(f[0], "@")
+					if v, ok := cur.AnchoredLoops[key]; ok {
+						n = v
+					} else {
+						n = -1 - len(cur.AnchoredLoops)
+						cur.AnchoredLoops[key] = n
+					}
+				} else {
+					var err error
+					n, err = strconv.Atoi(f[0])
+					if err != nil {
+						return fmt.Errorf("%s: loop ordinal: %v", where, err)
+					}
 				}
 				ls := cur.Loops[n]
 				if ls == nil {
